@@ -64,7 +64,7 @@ theorem world_step_independent (tf : Bytes → Bytes) (w : List (Tree V)) (i j :
     · exact h
     · rw [List.getElem?_eq_none h] at hi; exact absurd hi (by simp)
   simp only [stepWorld, hi]
-  refine ⟨rfl, by simp [hlt], fun hne => by rw [List.getElem?_set_ne (fun e => hne e.symm)]⟩
+  refine ⟨trivial, by simp [hlt], fun hne => by rw [List.getElem?_set_ne (fun e => hne e.symm)]⟩
 
 /-- a tree emptied by deletions IS a newly created one (same root, same size), so it behaves like one -/
 theorem emptied_is_init {tf} {t : Tree V} (h : Inv tf t) (he : items t = []) : t = ({} : Tree V) := by
